@@ -490,7 +490,7 @@ static void section_offsets() {
     c.n("distinct_nontrivial") += rt.accepted;
     for (int cl = 1; cl < CL_N; cl++) if (rt.viol[cl] > 1) c.viol_count[std::string("offset:") + rt.f->name + ":" + kClause[cl]] += int(std::min<long long>(rt.viol[cl] - 1, INT_MAX / 2));
   }
-  c.n("offset_formats") = (long long)kNumFmts;
+  c.n("offset_formats") = c.shard_i == 0 ? (long long)kNumFmts : 0;
   c.strs["offset_bounds"] = bounds;
 }
 
